@@ -21,13 +21,14 @@ LEVEL = ("For generated coupled aggregates of 2-4 sites with site-dependent over
          "k_ab/k_ba = exp(-(E_a-E_b)/kT) with E from numpy.linalg.eigh of the oracle's own Hamiltonian; its downhill "
          "elements and the elements R[a,a,b,b] of the Redfield tensor read inside eigenbasis_of(H) equal "
          "sum_n |c_na|^2 |c_nb|^2 (1+coth(w/2kT)) J_n(w) within the stated error model; the Foerster rate matrix has zero "
-         "column sums and obeys detailed balance with respect to E_n - lambda_n within 6 %; spectral densities are odd and the "
+         "column sums and obeys detailed balance with respect to E_n - lambda_n within the stated error model; spectral densities are odd and the "
          "Fourier-transformed correlation function obeys C(-w) = exp(-w/kT) C(w).")
 NOTE = ("Class-3 clauses use explicit error models, calibrated on ~650 state pairs of the unchanged tree: golden rule: "
         "allowed = 3 % (tensor: 6 %) + 0.4*dt*Re C(0)/k (endpoint term of the discrete half-Fourier transform; worst observed ratio "
-        "to the model 0.25/0.4), asserted where allowed <= 25 %; Foerster detailed balance: 6 % where the overlap "
-        "integrand has decayed below 1e-3 on the time axis and the rate is >= 1/20 of the integral of its modulus "
-        "(worst observed 2.7 %). The seeded changes shift these quantities by 27-105 %. Transition frequencies "
+        "to the model 0.25/0.4), asserted where allowed <= 25 %; Foerster detailed balance: allowed = 1 % + 0.006*(M/k_ab + "
+        "M/k_ba), M = integral of the modulus of the overlap integrand (cancellation measure), asserted where the "
+        "integrand has decayed below 1e-3 on the time axis and the sum is <= 40 (worst observed ratio to the sum on 2185 "
+        "pairs: 0.0038; a first, constant tolerance of 6 % raised a false alarm at 6.003 % in a thorough run). The seeded changes shift these quantities by 27-105 %. Transition frequencies "
         "20 cm^-1 <= |w| <= 0.25*pi/dt and below the library's 3000 cm^-1 cut-off.")
 RULE = ("kind rates: gens.system_spec(N 2..4, coupled, site-dependent baths, 50..100 Matsubara terms); kind bath: "
         "(lambda, tau_c, T, axis). Non-trivial: >= 2 coupled sites and all exciton gaps >= 20 cm^-1.")
@@ -215,9 +216,13 @@ def _check_rates(case, ctx):
                 # least 1/20 of the integral of the modulus); the oracle evaluates both from the closed-form g(t)
                 env = numpy.abs(numpy.exp(-g[a] - g[b]))
                 M = 2.0 * float(numpy.trapezoid(env, tt)) * (spec["J"][a][b] * orc.CM2INT) ** 2
-                if min(kab, kba) > 0 and env[-1] < 1e-3 and M / min(kab, kba) <= 20:
-                    ctx.bound("foerster-rates/detailed-balance", abs((kab / kba) / math.exp(-x) - 1.0), 0.06, T=T,
-                              dE_cm=spec["E"][a] - spec["E"][b])
+                # error model: a rate is what is left of an oscillating integral whose modulus integrates to M; the
+                # relative quadrature error of the rate grows with the cancellation M/k.  Measured on 2185 pairs of the
+                # unchanged tree: |ratio deviation| <= 0.0038 * (M/k_ab + M/k_ba); allowed = 1 % + 0.006 * that sum
+                S = (M / kab + M / kba) if min(kab, kba) > 0 else float("inf")
+                if env[-1] < 1e-3 and S <= 40:
+                    ctx.bound("foerster-rates/detailed-balance", abs((kab / kba) / math.exp(-x) - 1.0), 0.01 + 0.006 * S, T=T,
+                              dE_cm=spec["E"][a] - spec["E"][b], cancellation=round(S, 1))
                 else:
                     ctx.label("foerster-db:outside-quadrature-window")
 
